@@ -43,6 +43,9 @@ let cell_of_byte b = let x = int_of_n b in (n_of_int (x lsr 1), x land 1 = 1)
 let matrix_from n bytes : Types.qmat =
   let arr = Array.of_list bytes in
   L.init n (fun r -> L.init n (fun c -> cell_of_byte arr.(r * n + c)))
+let rows_from n bytes : BinNums.coq_N list list =
+  let arr = Array.of_list bytes in
+  L.init n (fun r -> L.init n (fun c -> arr.(r * n + c)))
 let poly_hash l = L.fold_left (fun h b -> (h * 31 + int_of_n b) mod 1_000_000_007) 7 l
 let rec take k l = if k = 0 then [] else match l with [] -> [] | x :: t -> x :: take (k - 1) t
 let rec drop k l = if k = 0 then l else match l with [] -> [] | _ :: t -> drop (k - 1) t
@@ -105,7 +108,7 @@ let run_case (line : string) : string =
   | "build" | "sel" | "cands" ->
     let o = options a.(1) a.(2) a.(3) a.(4) in
     let input = unhex a.(5) in
-    (match Qr.build input o with
+    (match Qr.build_unchecked input o with
      | Types.Ok q ->
        let head = Printf.sprintf "OK %d %d %d %d" (int_of_nat q.Types.q_version) (int_of_nat (Types.ecl_idx q.Types.q_ecl))
            (int_of_nat q.Types.q_mask) (int_of_nat (Types.mode_idx q.Types.q_mode)) in
@@ -153,6 +156,39 @@ let run_case (line : string) : string =
     let n = int_of_string a.(1) in
     let m = matrix_from n (unhex a.(2)) in
     "OK " ^ Str.concat "," (L.map (fun x -> Printf.sprintf "%x" (int_of_n x)) (Helpers.print_matrix_with_margin (nat_of_int n) m))
+  (* ---- spec oracles, run on the implementation's outputs ---- *)
+  | "odecode" ->
+    let n = int_of_string a.(1) in
+    (match Iso.iso_decode (Oracles.vals_of (rows_from n (unhex a.(2)))) with
+     | None -> "NONE"
+     | Some d ->
+       Printf.sprintf "OK %d %d %d %d" (int_of_nat d.Iso.d_version) (int_of_nat d.Iso.d_level) (int_of_nat d.Iso.d_mask)
+         (L.length d.Iso.d_segments) ^
+       Str.concat "" (L.map (fun (m, p) -> Printf.sprintf " %d %s" (int_of_nat m) (hex p)) d.Iso.d_segments))
+  | "ofixed" -> if Oracles.oracle_fixed (rows_from (int_of_string a.(1)) (unhex a.(2))) then "1" else "0"
+  | "olabels" -> if Oracles.oracle_labels (rows_from (int_of_string a.(1)) (unhex a.(2))) then "1" else "0"
+  | "oformat" ->
+    (match Oracles.oracle_format (rows_from (int_of_string a.(1)) (unhex a.(2))) with
+     | None -> "NONE"
+     | Some ((l, k), ok) -> Printf.sprintf "%d %d %d" (int_of_nat l) (int_of_nat k) (if ok then 1 else 0))
+  | "ors" ->
+    (match Oracles.oracle_rs (rows_from (int_of_string a.(1)) (unhex a.(2))) with
+     | None -> "NONE"
+     | Some (b, ok) -> Printf.sprintf "%d %d" (int_of_nat b) (if ok then 1 else 0))
+  | "odcw" ->
+    (match Oracles.oracle_data_codewords (rows_from (int_of_string a.(1)) (unhex a.(2))) with
+     | None -> "NONE" | Some l -> hex l)
+  | "omask" ->
+    let n = int_of_string a.(2) in
+    if Oracles.oracle_mask (nat_of_int (int_of_string a.(1))) (rows_from n (unhex a.(3))) (rows_from n (unhex a.(4))) then "1" else "0"
+  | "openalty" -> string_of_n (Penalty.oracle_penalty (rows_from (int_of_string a.(1)) (unhex a.(2))))
+  | "omode" -> string_of_int (int_of_nat (Oracles.oracle_mode (unhex a.(1))))
+  | "oec" -> hex (Oracles.oracle_ec (unhex a.(1)) (nat_of_int (int_of_string a.(2))))
+  | "ominver" ->
+    (match Iso.iso_min_version (nat_of_int (int_of_string a.(1))) (nat_of_int (int_of_string a.(2))) (n_of_string a.(3)) with
+     | Some v -> string_of_int (int_of_nat v) | None -> "NONE")
+  | "oisocw" ->
+    hex (Iso.iso_codewords (nat_of_int (int_of_string a.(1))) (nat_of_int (int_of_string a.(2))) (nat_of_int (int_of_string a.(3))) (unhex a.(4)))
   | _ -> Render.run_case a
 
 let () =
